@@ -107,6 +107,10 @@ func vNondetArray(n int) []byte {
 	return b
 }
 
+// like vNondetBytes / vNondetString, but the engine case-splits on the length
+func vNondetBytesC(max int) []byte   { return vNondetBytes(max) }
+func vNondetStringC(max int) string { return vNondetString(max) }
+
 func vChoice(n int) int { return int(vNext("choice").Val) }
 
 func vConcrete(x int, max int) int { return x }
@@ -176,6 +180,35 @@ func vYield(key int)      {}
 func vConsumed(n int)     {}
 func vSymbolic() bool     { return false }
 func vExpectPanic()       {}
+
+var vOnceDone = map[string]bool{}
+
+// vOnce runs f once per process (natively harnesses share one process).
+func vOnce(key string, f func()) {
+	if !vOnceDone[key] {
+		vOnceDone[key] = true
+		f()
+	}
+}
+
+
+// non-short-circuit connectives (no branching under the engine)
+func vAnd(a, b bool) bool     { return a && b }
+func vOr(a, b bool) bool      { return a || b }
+func vImplies(a, b bool) bool { return !a || b }
+func vBytesEq(a, b []byte) bool {
+	if len(a) != len(b) {
+		return false
+	}
+	for i := range a {
+		if a[i] != b[i] {
+			return false
+		}
+	}
+	return true
+}
+
+func vThorough() bool     { return os.Getenv("VERIF_TIER") == "thorough" }
 func vGoroutines() int    { return 0 }
 func vAllocBytes() uint64 { return 0 }
 func vOpaqueString() string { return "" }
